@@ -113,6 +113,10 @@ def run_complete(job, ob):
         return before, ckkit.state_of(t), mutated_and_read(name, kind)
     for o in _explore(fn):
         if o.exc is not None:
+            from ..harness import exc_origin
+            if exc_origin(o.exc) == "harness":
+                ob.fail_harness(f"harness raised: {o.exc!r}")
+                continue
             ob.prove("no-exception", o.pc, False, cex=lambda m, o=o: dict(kind="exc", exc=repr(o.exc)))
             continue
         a, b, mr = o.value
@@ -184,6 +188,10 @@ def run_steps(job, ob):
         return res
     for o in _explore(fn):
         if o.exc is not None:
+            from ..harness import exc_origin
+            if exc_origin(o.exc) == "harness":
+                ob.fail_harness(f"harness raised: {o.exc!r}")
+                continue
             ob.prove("no-exception", o.pc, False, cex=lambda m, o=o: dict(kind="exc", exc=repr(o.exc)))
             continue
         for r in o.value:
@@ -206,7 +214,7 @@ def _all_eq(xs, ys):
 
 def run_overrides(job, ob):
     name = job["solver"]
-    combos = [dict(), dict(new_checkpoint_dir=True), dict(checkpoint_frequency=1), dict(max_checkpoints=3), dict(enable_async_checkpointing=False),
+    combos = [dict(), dict(new_checkpoint_dir=True), dict(checkpoint_frequency=1), dict(checkpoint_frequency=0), dict(new_checkpoint_dir=True, checkpoint_frequency=0), dict(max_checkpoints=3), dict(enable_async_checkpointing=False),
               dict(new_checkpoint_dir=True, checkpoint_frequency=1, max_checkpoints=3, enable_async_checkpointing=False),
               dict(new_checkpoint_dir=True, checkpoint_frequency=3, max_checkpoints=1)]
 
@@ -226,22 +234,28 @@ def run_overrides(job, ob):
             kw = dict(ov)
             nd = None
             if kw.pop("new_checkpoint_dir", False):
-                nd = dirs.new()
+                nd = os.path.join(dirs.new(), "moved")   # does not exist yet
                 kw["new_checkpoint_dir"] = nd
             t = type(s).restore(d, **kw)
             restored = ckkit.state_of(t)
             ab.attach(t, name, "o")
             # force two more iterations without convergence reports mattering: use the abstraction and explore
             t.solve(2)
-            t.checkpoint_manager.wait_until_finished()
+            if t.checkpoint_manager is not None:
+                t.checkpoint_manager.wait_until_finished()
             after = {k: v for k, v in om.Store.dirs[key]["committed"].items()}
-            target = [k for k in om.Store.dirs if k.endswith(os.path.basename(nd or d))][0]
-            res.append(dict(ov=ov, saved=saved, restored=restored, orig_unchanged=(sorted(before) == sorted(after) and all(before[k] is after[k] for k in before)) if nd else True,
-                            new_steps=sorted(om.Store.dirs[target]["committed"]), end=t.iteration, f=t.checkpoint_frequency, m=t.max_checkpoints,
-                            async_=t.enable_async_checkpointing, dir_ok=str(t.checkpoint_dir).endswith(os.path.basename(nd or d))))
+            targets = [k for k in om.Store.dirs if k == os.path.abspath(nd or d)]
+            unchanged = sorted(before) == sorted(after) and all(before[k] is after[k] for k in before)
+            res.append(dict(ov=ov, saved=saved, restored=restored, orig_unchanged=unchanged if (nd or ov.get("checkpoint_frequency") == 0) else True,
+                            new_steps=sorted(om.Store.dirs[targets[0]]["committed"]) if targets else [], end=t.iteration, new_dir_created=bool(nd) and os.path.exists(nd), f=t.checkpoint_frequency, m=t.max_checkpoints,
+                            async_=t.enable_async_checkpointing, dir_ok=(t.checkpoint_frequency == 0) or str(t.checkpoint_dir) == os.path.abspath(nd or d)))
         return res
     for pi_, o in enumerate(_explore(fn)):
         if o.exc is not None:
+            from ..harness import exc_origin
+            if exc_origin(o.exc) == "harness":
+                ob.fail_harness(f"harness raised: {o.exc!r}")
+                continue
             ob.prove("no-exception", o.pc, False, cex=lambda m, o=o: dict(kind="exc", exc=repr(o.exc)))
             continue
         for r in o.value:
@@ -254,6 +268,12 @@ def run_overrides(job, ob):
             m = ov.get("max_checkpoints", 2)
             ob.prove(f"override-takes-effect[{tag},path{pi_}]", [], r["f"] == f and r["m"] == m and r["async_"] == ov.get("enable_async_checkpointing", True) and r["dir_ok"],
                      cex=cex, kind="overrides take effect on the restored solver")
+            if f == 0:
+                # checkpointing switched off by the override: nothing more is written anywhere
+                ob.prove(f"frequency-0-override-stops-saving[{tag},path{pi_}]", [], r["orig_unchanged"] and
+                         (r["new_steps"] == [4] if not ov.get("new_checkpoint_dir") else (r["new_steps"] == [] and not r["new_dir_created"])), cex=cex,
+                         kind="checkpoint_frequency=0 override disables further saves")
+                continue
             steps = {i for i in range(5, r["end"] + 1) if i % f == 0} | {r["end"]}
             if not ov.get("new_checkpoint_dir"):
                 steps |= {4}
@@ -417,8 +437,10 @@ def replay(data):
         r = {"real": run_real, "errors": run_errors}[job["kind"]](job, ob)
         bad = [v["obligation"] for v in ob.violations]
         return bool(bad), f"{job['name']}: failing {bad}" if bad else f"{job['name']}: all hold"
-    # model-level counterexamples are confirmed on the real Orbax with concrete states
+    # model-level counterexamples are confirmed on the real Orbax with concrete states; only the facts the failing
+    # obligation is about are evaluated
     name = job["solver"]
+    obn = data["obligation"]
     base = tempfile.mkdtemp(prefix="mdpv-c10-")
     try:
         d = os.path.join(base, "ck")
@@ -429,27 +451,65 @@ def replay(data):
         s.checkpoint_manager.wait_until_finished()
         cls = type(s)
         bad = []
-        t = cls.restore(d)
-        if not _state_equal(held[3], t, name):
-            bad.append("restore(): state differs from what the solver held at step 3 (policy held: %s, restored: %s)" % (
-                None if held[3].policy is None else held[3].policy.ravel().tolist(), None if t.policy is None else np.asarray(t.policy).ravel().tolist()))
-        u = cls.restore(d, step=2)
-        if u.iteration != 2:
-            bad.append(f"restore(step=2) gave iteration {u.iteration}")
-        nd = os.path.join(base, "new")
-        w = cls.restore(d, new_checkpoint_dir=nd, checkpoint_frequency=1, max_checkpoints=1, enable_async_checkpointing=False)
-        if not _state_equal(held[3], w, name):
-            bad.append("restore with overrides: state differs")
-        before = sorted(os.listdir(d))
-        w.solve(2)
-        if sorted(os.listdir(d)) != before:
-            bad.append("original directory changed")
-        if sorted(p for p in os.listdir(nd) if p.isdigit()) != [str(w.iteration)]:
-            bad.append(f"new directory holds {sorted(os.listdir(nd))}")
-        v = ckkit.make_solver(name, ckkit.make_problem("forest"), epsilon=1e-12)
-        v.load_checkpoint(d)
-        if not _state_equal(held[3], v, name):
-            bad.append("load_checkpoint: state differs")
-        return bool(bad), f"{name}: " + ("; ".join(bad) or "real Orbax round trip exact")
+
+        def differs(h, t, what):
+            fields = []
+            if t.iteration != h.iteration:
+                fields.append("iteration")
+            if not np.array_equal(np.asarray(t.values), h.values):
+                fields.append("values")
+            if (t.policy is None) != (h.policy is None) or (h.policy is not None and not np.array_equal(np.asarray(t.policy), h.policy)):
+                fields.append("policy")
+            if hasattr(h, "gain") and float(t.gain) != h.gain:
+                fields.append("gain")
+            if hasattr(h, "history_index") and (t.history_index != h.history_index or int(t.period) != h.period or
+                                                not np.array_equal(np.asarray(t.value_history), h.value_history)):
+                fields.append("value_history/history_index/period")
+            return [f"{what}: {f} differs from what the solver held at that step" for f in fields]
+        field = None
+        for pre in ("restored-", "override-keeps-"):
+            if obn.startswith(pre):
+                field = obn[len(pre):].split("[")[0]
+        if field is not None:
+            t = cls.restore(d)
+            w = cls.restore(d, new_checkpoint_dir=os.path.join(base, "n1"), checkpoint_frequency=1, max_checkpoints=1, enable_async_checkpointing=False)
+            v = ckkit.make_solver(name, ckkit.make_problem("forest"), epsilon=1e-12)
+            v.load_checkpoint(d)
+            allbad = differs(held[3], t, "restore()") + differs(held[3], w, "restore(overrides)") + differs(held[3], v, "load_checkpoint()")
+            bad = [b for b in allbad if field.split("_")[0] in b or (field in ("value_history", "history_index", "period") and "value_history" in b)]
+        elif obn.startswith(("default==latest", "explicit-step")):
+            t = cls.restore(d)
+            if t.iteration != 3:
+                bad.append(f"restore() gave iteration {t.iteration}, latest is 3")
+            for st in (1, 2, 3):
+                u = cls.restore(d, step=st)
+                if u.iteration != st or not np.array_equal(np.asarray(u.values), held[st].values):
+                    bad.append(f"restore(step={st}) gave iteration {u.iteration}")
+        else:
+            nd = os.path.join(base, "new")
+            w = cls.restore(d, new_checkpoint_dir=nd, checkpoint_frequency=1, max_checkpoints=1, enable_async_checkpointing=False)
+            if (w.checkpoint_frequency, w.max_checkpoints, w.enable_async_checkpointing) != (1, 1, False) or str(w.checkpoint_dir) != nd:
+                bad.append("overrides did not take effect")
+            before = sorted(os.listdir(d))
+            w.solve(2)
+            if sorted(os.listdir(d)) != before:
+                bad.append("original directory changed")
+            if sorted(p for p in os.listdir(nd) if p.isdigit()) != [str(w.iteration)]:
+                bad.append(f"new directory holds {sorted(os.listdir(nd))}")
+            z = cls.restore(d, checkpoint_frequency=0)
+            z.solve(2)
+            if sorted(os.listdir(d)) != before or z.checkpoint_frequency != 0:
+                bad.append(f"checkpoint_frequency=0 override ignored: directory {before} -> {sorted(os.listdir(d))}")
+            nd2 = os.path.join(base, "new2")
+            z2 = cls.restore(d, new_checkpoint_dir=nd2, checkpoint_frequency=0)
+            z2.solve(1)
+            if os.path.exists(nd2) or sorted(os.listdir(d)) != before:
+                bad.append("checkpoint_frequency=0 with a new directory still wrote something")
+            y = cls.restore(d, max_checkpoints=2)
+            y.solve(3)
+            y.checkpoint_manager.wait_until_finished()
+            if len([p for p in os.listdir(d) if p.isdigit()]) != 2:
+                bad.append(f"max_checkpoints=2 override: directory holds {sorted(os.listdir(d))}")
+        return bool(bad), f"{name}: " + ("; ".join(bad) or "real Orbax behaves as documented for this obligation")
     finally:
         shutil.rmtree(base, ignore_errors=True)
